@@ -405,7 +405,7 @@ func c04Existence(a *Anchors, r *core.Report) {
 // is followed by the matching drain (or is the meta hand-over: exit pushed to the meta process).
 func c04MetaAndSpawnDrain(a *Anchors, r *core.Report) {
 	rule := "C04.L2b every-identity-removal-is-drained"
-	r.Floor(rule, 9)
+	r.Floor(rule, 6)
 	drainOf := map[string]string{"names": "RouteTerminateProcessID", "aliases": "RouteTerminateAlias", "events": "RouteTerminateEvent", "processes": "RouteTerminatePID"}
 	seq := map[string]int{}
 	for _, f := range funcsOfPkgs(a.P, "node") {
